@@ -11,7 +11,7 @@ import SfntV.Proofs.CffCharset
 import SfntV.Proofs.CffFdselect
 import SfntV.Proofs.CffWidths
 import SfntV.Proofs.CffStrings
-import SfntV.Model.CffEncoding
+import SfntV.Proofs.CffEncodingRt
 import SfntV.Proofs.CffWrite
 import SfntV.Generated.Cff
 
@@ -215,21 +215,25 @@ example : stringsLookup ["a", "b"] ["x"] "b" = (1, ["x"]) ∧ stringsLookup ["a"
 
 /-! ## encoding -/
 
-/-- The documented contiguity rule of `encodeEncoding`: the encoded glyphs are exactly
-`1 … k` for some `k`, every entry is a glyph of the font, the vector has 256 entries. -/
-def EncodingDom (enc : List Nat) (nGlyphs : Nat) : Prop :=
-  enc.length = 256 ∧ (∀ g ∈ enc, g < nGlyphs) ∧
-    ∀ g ∈ enc, ∀ g', 0 < g' → g' < g → g' ∈ enc
+/-- The built-in encoding survives, including multiply-encoded glyphs: for an encoding vector of
+256 entries that satisfies the documented contiguity rule (the encoded glyphs are exactly
+1 … k) and refers only to glyphs of the font, and pairwise distinct 16-bit glyph names (at least
+.notdef, at most 65 535 glyphs), whenever `encodeEncoding` produces bytes — format 0 or format 1,
+with or without supplement — `readEncoding` reads back exactly the vector.
 
-/-- Full statement (not proved; evaluated by the streams `cff.encoding.enc/read/spec` and by the
-whole-font streams): an encoding vector satisfying the contiguity rule, for a font whose glyph
-names (SIDs, 16-bit) are pairwise distinct, is written without error and read back unchanged —
-formats 0 and 1, with supplements for multiply-encoded glyphs. -/
-def C13_encoding_roundtrip_full : Prop :=
-  ∀ (enc : List Nat) (names : List Int) (rest : Bytes),
-    EncodingDom enc names.length → names.length < 65536 →
-    (∀ x ∈ names, 0 ≤ x ∧ x ≤ 65535) → names.Nodup →
-    ∃ bs, encodeEncoding enc names = .ok bs ∧ readEncoding (bs ++ rest) 0 names = .ok enc
+The hypothesis `encodeEncoding … = .ok bs` is forced by the code: inside this domain the encoder
+refuses ("too many segments") exactly when the primary codes form more than 255 ranges, which
+needs 256 encoded glyphs with scattered codes (e.g. glyph `g` at code `7·g mod 256`); the real
+code returns that error there (stream `cff.encoding.enc`, class `err:invalid`), it does not write
+a wrong table. -/
+theorem C13_encoding_roundtrip (enc : List Nat) (names : List Int) (bs rest : Bytes)
+    (hlen : enc.length = 256) (hlt : ∀ g ∈ enc, g < names.length)
+    (hcontig : ∀ g ∈ enc, ∀ g', 0 < g' → g' < g → g' ∈ enc)
+    (hn1 : 1 ≤ names.length) (hn16 : names.length < 65536) (hnd : names.Nodup)
+    (hr : ∀ x ∈ names, 0 ≤ x ∧ x ≤ 65535)
+    (h : encodeEncoding enc names = .ok bs) :
+    readEncoding (bs ++ rest) 0 names = .ok enc :=
+  readEncoding_encodeEncoding enc names bs rest hlen hlt hcontig hn1 hn16 hnd hr h
 
 -- a multiply-encoded glyph: codes 65 and 97 both select glyph 1 (SID 34)
 set_option maxRecDepth 100000 in
